@@ -1141,6 +1141,11 @@ def judge(res: Result, item: dict, expect: Expect, case: Any, captured: dict, wi
         by_location.setdefault(p.location, []).append(p)
     extra_query_names: set[str] = set()
     compared_by_location: dict[str, int] = {}
+    # several cookies share one header: a value that a cookie cannot carry (`;`, `,`, white space, non-ASCII ...) makes the
+    # whole header ambiguous, also for the cookies next to it (whatever the order in which they are judged)
+    cookie_container = captured.get("cookie")
+    cookie_header_ambiguous = isinstance(cookie_container, dict) and any(
+        ch in S._COOKIE_FORBIDDEN or ord(ch) > 0x7E for v in cookie_container.values() for text in common.all_strings(v) for ch in text)
     for p in expect.params:
         if p.name in handled and p.location == "path":
             continue
@@ -1156,6 +1161,8 @@ def judge(res: Result, item: dict, expect: Expect, case: Any, captured: dict, wi
             extra_query_names |= {str(k) for k in expected}
         reason = S.ambiguity(expected, p.location, "collection" if p.spec == "2.0" else p.style, p.explode, p.kind,
                              p.cf if p.spec == "2.0" else None, p.json_content)
+        if reason is None and p.location == "cookie" and cookie_header_ambiguous and len(by_location.get("cookie", [])) > 1:
+            reason = "value_a_cookie_cannot_carry"  # held by a sibling cookie of the same header
         if reason is None and p.json_content and p.location == "cookie" and any(
                 ch in S._COOKIE_FORBIDDEN or ord(ch) > 0x7E for ch in json.dumps(expected)):
             reason = "value_a_cookie_cannot_carry"
